@@ -54,8 +54,9 @@ class Std:
                 base = self.desc(mod, fn.value, loc, cls, depth + 1)
                 if base and base[0] == "ext" and fn.attr in ("get_op", "get_type", "get_value") and e.args and isinstance(e.args[0], ast.Constant):
                     return ({"get_op": "opdef", "get_type": "typedef", "get_value": "valdef"}[fn.attr], base[1], e.args[0].value)
-                if base and base[0] == "typedef" and fn.attr == "instantiate" and e.args:
-                    args = e.args[0].elts if isinstance(e.args[0], ast.List) else None
+                if base and base[0] == "typedef" and fn.attr == "instantiate" and (e.args or any(k.arg == "args" for k in e.keywords)):
+                    a0 = e.args[0] if e.args else [k.value for k in e.keywords if k.arg == "args"][0]
+                    args = a0.elts if isinstance(a0, ast.List) else None
                     return ("exttype", base[1], base[2], args, mod, loc)
                 if base and base[0] == "opdef" and fn.attr == "instantiate":
                     return ("extop", base[1], base[2], e, mod, loc)
